@@ -310,7 +310,7 @@ func keys(m map[uint32]bool) []int {
 
 // realCase: a real wallet database whose wtxmgr/waddrmgr versions are wound
 // back is upgraded through wallet.Open with a write fault at every position.
-func realCase(r *evid.Run, dir string, cs int64) {
+func realCase(r *evid.Run, dir string, idx int, cs int64) {
 	rg := rand.New(rand.NewSource(cs))
 	params := &chaincfg.RegressionNetParams
 	path := filepath.Join(dir, fmt.Sprintf("real-%d-%d.db", os.Getpid(), cs))
@@ -350,9 +350,18 @@ func realCase(r *evid.Run, dir string, cs int64) {
 		return nil
 	})
 	// wind the stored versions back: wtxmgr -> 1, waddrmgr -> 7 (or only one of them)
-	windTx, windAddr := true, rg.Intn(2) == 0
-	if rg.Intn(3) == 0 {
-		windTx, windAddr = false, true // the FIRST service is up to date, the second is behind
+	// the four combinations in turn: only the first service behind / both behind /
+	// only the second behind / first behind and the second NEWER than understood
+	var windTx, windAddr, addrNewer bool
+	switch idx % 4 {
+	case 0:
+		windTx = true
+	case 1:
+		windTx, windAddr = true, true
+	case 2:
+		windAddr = true
+	case 3:
+		windTx, addrNewer = true, true
 	}
 	walletdb.Update(db, func(tx walletdb.ReadWriteTx) error {
 		if windTx {
@@ -361,10 +370,29 @@ func realCase(r *evid.Run, dir string, cs int64) {
 		if windAddr {
 			tx.ReadWriteBucket([]byte("waddrmgr")).NestedReadWriteBucket([]byte("main")).Put([]byte("mgrver"), []byte{7, 0, 0, 0})
 		}
+		if addrNewer {
+			tx.ReadWriteBucket([]byte("waddrmgr")).NestedReadWriteBucket([]byte("main")).Put([]byte("mgrver"), []byte{byte(int(waddrmgr.LatestMgrVersion) + 1 + rg.Intn(3)), 0, 0, 0})
+		}
 		return nil
 	})
 	tops := [][]byte{[]byte("wtxmgr"), []byte("waddrmgr")}
 	before := dumpDB(db, tops...)
+	if addrNewer {
+		// a newer-than-understood service: refused, and NOTHING is modified, not
+		// even the other service's pending upgrade
+		_, err := wallet.OpenWithRetry(db, []byte("pub"), nil, params, 0, 10*time.Millisecond)
+		if err == nil {
+			r.Violation("c19:newer-database-not-refused", "wallet.Open accepted a database whose address manager version is above the latest it understands", "real", cs, nil)
+			return
+		}
+		if after := dumpDB(db, tops...); after != before {
+			r.Violation("c19:newer-database-modified", fmt.Sprintf("wallet.Open refused the newer database (%v) but modified it (the transaction store's pending upgrade was applied and kept)", err), "real", cs, nil)
+			return
+		}
+		r.Hit("real-newer-database-refused-unmodified", 1)
+		r.Case(fmt.Sprintf("real/newer/%d", cs), true)
+		return
+	}
 	for k := 1; k < 2000; k++ {
 		db.FailAt = k
 		w, err := wallet.OpenWithRetry(db, []byte("pub"), nil, params, 0, 10*time.Millisecond)
@@ -538,7 +566,8 @@ func main() {
 			tableCase(r, db, rg, t, cs)
 		}
 	})
-	r.Parallel("real", r.N(4, 160), evid.Workers(), func(i int, cs int64) { realCase(r, dir, cs) })
+	r.Parallel("real", r.N(4, 160), evid.Workers(), func(i int, cs int64) { realCase(r, dir, i, cs) })
+	r.Require("real-newer-database-refused-unmodified", 1)
 	r.Parallel("counted", r.N(4, 80), evid.Workers(), func(i int, cs int64) { realCounted(r, dir, cs) })
 	r.Require("real-table-upgrade-attempts-counted", 12)
 	r.Require("upgrade-runs", 1000)
